@@ -32,7 +32,7 @@ func init() {
 		},
 		Run:            c01Run,
 		Floor:          func(tier string) int { return 1000 },
-		Rule:           "(defaulted inputs declared with open extents are overridden with other extents than the default; the default-domain opset import is spelled \"\", \"ai.onnx\", next to ai.onnx.ml / a custom domain, or twice) generated DAG programs of 1..12 nodes over 22 operator families (elementwise, Gemm/MatMul, Reshape family, Transpose/Concat/Gather/Slice, Softmax/Reduce/ArgMax+Cast, Constant, Shape, Conv, RNN/GRU/LSTM) with fan-out, fan-in (also of one tensor twice), repeated operator types with different attributes, multi-output nodes with arbitrary output names / omitted trailing outputs / a skipped middle output, optional inputs skipped by \"\" or truncated, initializers that are also graph inputs (overridden or not), graph outputs that are graph inputs or initializers; loaded from bytes. Each program is run (1) with the operator proxy: online trace specification (node order and phases, every apply receives position by position a tensor bit-equal to the value bound to that name when it was produced and nil for \"\", outputs bound by position, per-node reference oracle on the observed inputs, distinct stateful operator instances, result map = exactly the declared names, each bit-equal to its binding); (2) without proxy and with every intermediate declared as output: all values bit-identical to run (1); (3) with an injected fault at a random node/phase: Run must return that error and no outputs, and nothing may execute after it. Non-trivial = at least 2 nodes and one of: fan-out, repeated operator type, multi-output node, skipped optional input, shadowed initializer; distinct = program structure hash.",
+		Rule:           "(one program in sixteen needs no input at all - every input has a default or is a plain weight - and is run with a nil input map half of the time) (defaulted inputs declared with open extents are overridden with other extents than the default; the default-domain opset import is spelled \"\", \"ai.onnx\", next to ai.onnx.ml / a custom domain, or twice) generated DAG programs of 1..12 nodes over 22 operator families (elementwise, Gemm/MatMul, Reshape family, Transpose/Concat/Gather/Slice, Softmax/Reduce/ArgMax+Cast, Constant, Shape, Conv, RNN/GRU/LSTM) with fan-out, fan-in (also of one tensor twice), repeated operator types with different attributes, multi-output nodes with arbitrary output names / omitted trailing outputs / a skipped middle output, optional inputs skipped by \"\" or truncated, initializers that are also graph inputs (overridden or not), graph outputs that are graph inputs or initializers; loaded from bytes. Each program is run (1) with the operator proxy: online trace specification (node order and phases, every apply receives position by position a tensor bit-equal to the value bound to that name when it was produced and nil for \"\", outputs bound by position, per-node reference oracle on the observed inputs, distinct stateful operator instances, result map = exactly the declared names, each bit-equal to its binding); (2) without proxy and with every intermediate declared as output: all values bit-identical to run (1); (3) with an injected fault at a random node/phase: Run must return that error and no outputs, and nothing may execute after it. Non-trivial = at least 2 nodes and one of: fan-out, repeated operator type, multi-output node, skipped optional input, shadowed initializer; distinct = program structure hash.",
 		RaceInThorough: true,
 		Technique:      "runtime monitoring: online checker of the dataflow trace specification over events recorded by a proxy on Model.GetOperator, per-node reference oracle, paired un-proxied run, fault injection at the proxy",
 		Assumptions:    []string{"the proxy is transparent (checked per program by the paired un-proxied run)", "per-node tolerances as in C03..C11"},
